@@ -58,12 +58,14 @@ class Prop:
     RUN_TIMEOUT = 10.0
     DIGEST_EVERY = 20
     RULE = ("seeded random histories (5-40 ops) on 2-5 instances of a generated class and its "
-            "subclass with eleven default kinds (constant, list/dict copy, List/Dict/Set objects, "
-            "factory, _name_default method, Tuple and Union with container members, Instance "
-            "with args, subclass-overridden defaults): reads, re-reads, in-place mutation of "
+            "subclass with fifteen default kinds (constant, list/dict copy, List/Dict/Set objects, "
+            "factory, _name_default method, Tuple and Union with List/Set/Dict members incl. a "
+            "nested Tuple, Instance with args, subclass-overridden defaults): reads, re-reads, in-place mutation of "
             "default containers (also nested inside the Tuple), valid and invalid assignments, "
             "registering / removing on_trait_change and observe handlers (copy-on-write instance "
-            "traits), add_trait / remove_trait, creation of new instances at generated moments, "
+            "traits; every handler is tagged with the instance it was registered on), add_trait of "
+            "Int / List (with its _items trait) / the class's own trait definition object and "
+            "remove_trait, creation of new instances at generated moments, "
             "gc, drop of siblings, pickle restart of an instance; after every op all other "
             "instances, the class and a fresh instance are inspected; non-trivial = some default "
             "container was mutated or an instance trait was created before a sibling or a fresh "
